@@ -39,3 +39,15 @@ let () =
     | [spk; h; rt; l] ->
       of_result (fun (cb, mr) -> VT [VB cb; VB mr]) (Model.c15_mine_block_assemble sha256 (vb spk) (vi h) (vbool rt) (vbl l))
     | _ -> raise (Bad "arity"))
+;;
+(* ---- extension: target_threshold (int -> i, float -> exact ratio (num den)), median_time, genesis_* ---- *)
+let pynum_v = function Model.PInt z -> VI z | Model.PFloat (n, d) -> VT [VI n; VI d]
+let () =
+  register "c15_target_threshold" (function [b] -> ROk (pynum_v (Model.c15_target_threshold (vb b))) | _ -> raise (Bad "arity"));
+  register "c15_difficulty" (function [t; n] -> of_result pynum_v (Model.c15_difficulty (vi t) (vb n)) | _ -> raise (Bad "arity"));
+  register "c15_median_time" (function
+    | [l] -> of_result (fun z -> VI z) (Model.c15_median_time (List.map vi (vl l))) | _ -> raise (Bad "arity"));
+  register "c15_genesis_coinbase_tx" (function [] -> of_result (fun b -> VB b) Model.c15_genesis_coinbase_tx | _ -> raise (Bad "arity"));
+  register "c15_genesis_block" (function [] -> of_result (fun b -> VB b) (Model.c15_genesis_block sha256) | _ -> raise (Bad "arity"));
+  register "c15_spec_setcompact" (function
+    | [c] -> let ((v, n), o) = Model.c15_spec_setcompact (vi c) in ROk (VT [VI v; VBool n; VBool o]) | _ -> raise (Bad "arity"))
